@@ -11,7 +11,9 @@ LEVEL = "exploration"
 RULE = (
     "case = mechanism (open chain of 1-3 rigid bodies with joints from {Revolute, Spherical, Prismatic, Cylindrical, "
     "RigidConnection}, closed loop with an additional spherical joint to the origin, or a point-mass chain with "
-    "FixedDistance constraints) with gravity, optional spring/damper, consistent initial velocities built as a rigid "
+    "FixedDistance constraints) with gravity, optional spring/damper, optionally hanging from a frame with prescribed "
+    "non-uniform translation/rotation (rheonomic constraint), optionally driven at a revolute joint (Motor, PD, PID, "
+    "Maxwell element), consistent initial velocities built as a rigid "
     "motion the first joint permits x solver in {Rattle, BackwardEuler, DualStormerVerlet, Moreau, ScipyDAE, ScipyIVP} "
     "x step size log-uniform in [1e-3, 5e-2] x 20..60 steps. Non-trivial: closed loop or >= 2 joints, and the motion "
     "amplitude (largest change of a coordinate) exceeds 0.1."
@@ -128,6 +130,8 @@ def check(spec):
             rhs = system.h(t[k], q[k], u[k]) + D(system.W_g(t[k], q[k])) @ la_g[k]
             if system.nla_c:
                 rhs = rhs + D(system.W_c(t[k], q[k])) @ system.la_c(t[k], q[k], u[k])
+            if system.nla_tau:
+                rhs = rhs + D(system.W_tau(t[k], q[k])) @ system.la_tau(t[k], q[k], u[k])
             r = M @ ud[k] - rhs
             sc = 1.0 + float(np.max(np.abs(rhs)))
             worst_eom = max(worst_eom, float(np.max(np.abs(r))) / sc)
@@ -139,4 +143,9 @@ def check(spec):
     njoints = len(objs["joints"])
     res.nontrivial = (spec["mech"]["kind"] == "loop" or njoints >= 2) and amp > 0.1
     res.label(f"solver:{solver}", f"mech:{spec['mech']['kind']}", "dt<1e-2" if dt < 1e-2 else "dt>=1e-2")
+    bm = spec["mech"].get("base_motion")
+    if bm:
+        res.label("rheonomic:" + solver, "rheonomic:rotating_base" if "axis" in bm else "rheonomic:translating_base")
+    if "drive" in spec["mech"]:
+        res.label("drive:" + spec["mech"]["drive"]["type"], "drive:" + solver)
     return res
